@@ -50,6 +50,75 @@ Fixpoint seq_history (w : Z) (fs : file) (ops : list (list Z)) : args :=
 Fixpoint spec_seq (w start : Z) (n : nat) (i : Z) : list Z :=
   match n with O => [] | S k => spec_counter w (start + i) :: spec_seq w start k (i + 1) end.
 
+(* ---- live objects with their public setters (ops 303 / 304) ---- *)
+
+(* in-memory provider.  [1] next() | [5; k] k x next() | [7; w] max_bit_width = w |
+   [10; c] count = c.  After every op: result line, then [count; max_bit_width]. *)
+Fixpoint mem_rep (p : memprov) (k : nat) (acc : list Z) : list Z * memprov :=
+  match k with
+  | O => (0 :: rev acc, p)
+  | S k' => match memprov_step p MNext with
+            | (Some v, p') => mem_rep p' k' (v :: acc)
+            | (None, p') => ([1; 97], p')
+            end
+  end.
+Definition mem_hop (p : memprov) (o : list Z) : list Z * memprov :=
+  match o with
+  | 1 :: _ => match memprov_step p MNext with (Some v, p') => ([0; v], p') | (None, p') => ([1; 97], p') end
+  | 5 :: k :: _ => mem_rep p (Z.to_nat k) []
+  | 7 :: w :: _ => ([0], snd (memprov_step p (MSetWidth w)))
+  | 10 :: c :: _ => ([0], snd (memprov_step p (MSetCount c)))
+  | _ => ([1; 97], p)
+  end.
+Fixpoint mem_history (p : memprov) (ops : list (list Z)) : args :=
+  match ops with
+  | [] => []
+  | o :: rest => let '(out, p') := mem_hop p o in
+                 out :: [m_count p'; m_width p'] :: mem_history p' rest
+  end.
+
+(* file providers.  [0; w] new main object of width w | [1] next() | [2] current() | [3] current
+   file deleted | 4 :: codes current file overwritten | [5; k] k x next() | [6; k] k x (new object
+   of the current width; next()) | [7; w] max_bit_width = w | [8] file_name = other path |
+   [9] create_new() | [12] next() on the second provider | 13 :: codes check_count(line).
+   After every op: result line, file A, file B, [max_bit_width; on_b]. *)
+Fixpoint world_rep (restart : bool) (s : world) (k : nat) (acc : list Z) : list Z * world :=
+  match k with
+  | O => (0 :: rev acc, s)
+  | S k' =>
+      let s0 := if restart then snd (world_step s (WNew (w_width s))) else s in
+      match world_step s0 WNext with
+      | (Some (Ok v), s1) => world_rep restart s1 k' (v :: acc)
+      | (Some (Err e), s1) => (1 :: err_code e :: rev acc, s1)
+      | (None, s1) => ([1; 97], s1)
+      end
+  end.
+Definition world_res (x : option (res Z) * world) : list Z * world :=
+  match x with (Some r, s) => (out_res r, s) | (None, s) => ([0], s) end.
+Definition world_hop (s : world) (o : list Z) : list Z * world :=
+  match o with
+  | 0 :: w :: _ => world_res (world_step s (WNew w))
+  | 1 :: _ => world_res (world_step s WNext)
+  | 2 :: _ => world_res (world_step s WCurrent)
+  | 3 :: _ => world_res (world_step s WDelete)
+  | 4 :: c => world_res (world_step s (WOverwrite c))
+  | 5 :: k :: _ => world_rep false s (Z.to_nat k) []
+  | 6 :: k :: _ => world_rep true s (Z.to_nat k) []
+  | 7 :: w :: _ => world_res (world_step s (WSetWidth w))
+  | 8 :: _ => world_res (world_step s WSwitch)
+  | 9 :: _ => world_res (world_step s WCreateNew)
+  | 12 :: _ => world_res (world_step s WNext2)
+  | 13 :: line => (out_res (check_count (w_width s) line), s)
+  | _ => ([1; 97], s)
+  end.
+Definition world_obs (s : world) : args :=
+  [of_file (w_a s); of_file (w_b s); [w_width s; b2z (w_on_b s)]].
+Fixpoint world_history (s : world) (ops : list (list Z)) : args :=
+  match ops with
+  | [] => []
+  | o :: rest => let '(out, s') := world_hop s o in out :: world_obs s' ++ world_history s' rest
+  end.
+
 Definition run_seq (op : Z) (a : args) : args :=
   match op with
   (* SeqCountProvider(w): n calls from a fresh object *)
@@ -61,6 +130,15 @@ Definition run_seq (op : Z) (a : args) : args :=
            [0] :: of_file fs0 :: seq_history w fs0 (tl (tl a))
   (* exploration-only stream (non-ASCII content, outside the model's alphabet): constant *)
   | 302 => [[0]; [1]]
+  (* live in-memory provider with its public attribute / setter: [[w]; op; op; ...] *)
+  | 303 => let p := memprov_new (int 0 0 a) in
+           [0] :: [m_count p; m_width p] :: mem_history p (tl a)
+  (* live file providers: [[w; pus; w2]; file A; file B; op; ...]; the main provider is created
+     on A, the second one (width w2) on B *)
+  | 304 => let s := {| w_width := int 0 0 a; w_on_b := false;
+                       w_a := file_new (file_of (lst 1 a)); w_b := file_new (file_of (lst 2 a));
+                       w_width2 := int 0 2 a |} in
+           [0] :: world_obs s ++ world_history s (tl (tl (tl a)))
   (* Spec side: the n values a counter of width w returns starting at call number `start` *)
   | 350 => [[0]; spec_seq (int 0 0 a) (int 0 1 a) (Z.to_nat (int 0 2 a)) 0]
   | _ => [[1; 97]]
